@@ -786,6 +786,12 @@ class CallMixin:
         v = self.num(args[0])
         return k(Val(BOOL, z3.IsInt(v.t) if v.t.sort() == z3.RealSort() else z3.BoolVal(True)), st)
 
+    def bi_bound_method(self, args, kwargs, st, k):
+        """spec-only: the object `obj.name` evaluates to when a bound method is stored as a value (see core.coerce)"""
+        name, obj = args
+        bm = z3.Function("boundmethod", RefS, RefS, RefS)
+        return k(Val(ANY, bm(str_const(name.v), obj.t)), st)
+
     def bi_takewhile(self, args, kwargs, st, k):
         return k(TakeWhile(args[0], args[1]), st)
 
